@@ -183,6 +183,12 @@ def bUuid (t : Text) : Except PyErr Atom :=
   | some n => .ok (.uuid n)
   | none => .error .value
 
+/-- `EntrezGeneId.__build__`: `None if built == 0 else built` -/
+def zeroIsNull (r : Except PyErr Atom) : Except PyErr Atom :=
+  match r with
+  | .ok a => .ok (if a.pyEq (.int 0) then .none else a)
+  | .error e => .error e
+
 /-- Run the `__build__` chain of a non-sequence class on a text.
     `enumCls` is `cls.__enum_class__()` of the class the hook is called on,
     `chain` the definers of `__build__` from the current `super()` position on. -/
@@ -204,6 +210,9 @@ def runBuildAtom (C : Ctx) (enumCls : Option String) : List String → Text → 
     else if c = "PickColumn" then runBuildAtom C enumCls rest (pyCapitalize t)
     else if c = "YesNoOrUnknown" then runBuildAtom C enumCls rest t
     else if c = "UUIDColumn" then bUuid t
+    else if c = "EntrezGeneId" then
+      -- `built = super().__build__(value); return None if built == 0 else built`
+      zeroIsNull (runBuildAtom C enumCls rest t)
     else .error (.unmodelled ("__build__ of " ++ c))
 
 /-- `SequenceOfValuesColumn.__build__` -/
